@@ -13,7 +13,7 @@ package handler
 //       hdr : plain | ws | sse | both | wsx | ssex (request headers; wsx/ssex are near misses, not exempt)
 //       dur : pos | zero | neg                     (TimeoutHandler(duration))
 //       act : h:<k>:<v> | c:<code> | w:<letters> | f | p:<v>
-//     => sret=<done|panic:<v>|blocked|stuck> atret=<view> results=<r,…> final=<view> fin=<done|panic:<v>|same>
+//     => sret=<done|panic:<v>|blocked|stuck> atret=<view> results=<r,…> final=<view> fin=<done|panic:<v>|same> leak=<0|1>
 //   race <kind> <spin> <act>*               free-running handler against a concurrent expiry
 //     => sret=… atret=<view> results=… final=<view>
 //   dl <parentMs|none> <durMs> <hdr>         deadline seen by the handler
@@ -21,9 +21,11 @@ package handler
 //   view = <status>/<k:v;…|->/<body|->      (X-V<k> headers of the response as the client sees it)
 
 import (
+	"bufio"
 	"bytes"
 	"context"
 	"fmt"
+	"net"
 	"net/http"
 	"net/http/httptest"
 	"runtime"
@@ -104,6 +106,9 @@ func c04PanicTok(p any) string {
 	if n, ok := p.(int); ok {
 		return fmt.Sprintf("panic:%d", n)
 	}
+	if p == http.ErrAbortHandler {
+		return "panic:999999"
+	}
 	return "panic:" + strings.ReplaceAll(s, " ", "_")
 }
 
@@ -133,6 +138,8 @@ func c04Do(w http.ResponseWriter, a string) string {
 			return "ok"
 		}
 		return "noflusher"
+	case a == "p:999999":
+		panic(http.ErrAbortHandler)
 	case strings.HasPrefix(a, "p:"):
 		panic(verifh.Atoi(a[2:]))
 	}
@@ -206,6 +213,7 @@ func c04Rest(op []string) string {
 	kind, k, hdr, durTok := op[1], verifh.Atoi(op[2]), op[3], op[4]
 	acts := op[5:]
 	direct := hdr == "ws" || hdr == "sse" || hdr == "both" || durTok != "pos"
+	base := runtime.NumGoroutine()
 	parent := newC04Ctx()
 	gate := make(chan struct{})
 	ack := make(chan string)
@@ -286,7 +294,12 @@ func c04Rest(op []string) string {
 		fin, _ = c04WaitS(sdone, c04StuckBound(), "stuck")
 	}
 	final := c04View(rec)
-	return fmt.Sprintf("sret=%s atret=%s results=%s final=%s fin=%s", sret, atret, strings.Join(results, ","), final, fin)
+	// everything has ended: no goroutine of the wrapper (or of the work) may be left behind
+	leak := 0
+	if !verifh.SettleGoroutines(base, time.Second) {
+		leak = 1
+	}
+	return fmt.Sprintf("sret=%s atret=%s results=%s final=%s fin=%s leak=%d", sret, atret, strings.Join(results, ","), final, fin, leak)
 }
 
 // c04Race: the handler runs freely, the expiry is fired concurrently after `spin` yields.
@@ -395,6 +408,96 @@ func c04Classify(d time.Time, ok, hasParent bool, pd, t0, t1 time.Time, dur time
 	}
 }
 
+// c04HijackRec is a real writer that can be hijacked (as net/http's response): it counts the hand-overs.
+type c04HijackRec struct {
+	*httptest.ResponseRecorder
+	n int
+}
+
+func (h *c04HijackRec) Hijack() (net.Conn, *bufio.ReadWriter, error) {
+	h.n++
+	a, b := net.Pipe()
+	b.Close()
+	return a, bufio.NewReadWriter(bufio.NewReader(a), bufio.NewWriter(a)), nil
+}
+
+// c04Hijack: hij <sup|nosup> <kind> <before|after>: the handler calls Hijack before / after the timeout branch has run.
+func c04Hijack(op []string) string {
+	sup, kind, when := op[1] == "sup", op[2], op[3]
+	parent := newC04Ctx()
+	gate := make(chan struct{})
+	res := make(chan string, 1)
+	inner := http.HandlerFunc(func(w http.ResponseWriter, r *http.Request) {
+		<-gate
+		hj, ok := w.(http.Hijacker)
+		if !ok {
+			res <- "nohijacker"
+			return
+		}
+		conn, _, err := hj.Hijack()
+		switch {
+		case err == nil:
+			conn.Close()
+			res <- "ok"
+		case err == http.ErrHandlerTimeout:
+			res <- "refused"
+		case strings.Contains(err.Error(), "doesn't support hijacking"):
+			res <- "unsupported"
+		default:
+			res <- "err?" + strings.ReplaceAll(err.Error(), " ", "_")
+		}
+		<-gate
+	})
+	th := TimeoutHandler(time.Hour)(inner)
+	rec := httptest.NewRecorder()
+	var w http.ResponseWriter = rec
+	hr := &c04HijackRec{ResponseRecorder: rec}
+	if sup {
+		w = hr
+	}
+	sdone := make(chan string, 1)
+	go func() {
+		defer func() {
+			if p := recover(); p != nil {
+				sdone <- c04PanicTok(p)
+				return
+			}
+			sdone <- "done"
+		}()
+		th.ServeHTTP(w, c04Request("plain", parent))
+	}()
+	fire := func() {
+		if kind == "cancel" {
+			parent.fire(context.Canceled)
+		} else {
+			parent.fire(context.DeadlineExceeded)
+		}
+	}
+	var out string
+	if when == "before" {
+		gate <- struct{}{}
+		out = <-res
+		fire()
+		c04WaitS(sdone, c04StuckBound(), "stuck")
+		gate <- struct{}{}
+	} else {
+		fire()
+		if s, _ := c04WaitS(sdone, c04StuckBound(), "stuck"); s != "done" {
+			out = "sret:" + s
+		}
+		gate <- struct{}{}
+		r := <-res
+		if out == "" {
+			out = r
+		}
+		gate <- struct{}{}
+	}
+	if (out == "ok") != (hr.n == 1) {
+		out += "?handovers:" + strconv.Itoa(hr.n)
+	}
+	return "hijack=" + out
+}
+
 func c04Script(r *verifh.Rng, flush bool) []string {
 	n := r.Pick(0, 1, 2, 3, 3, 4, 5, 6)
 	var acts []string
@@ -434,10 +537,30 @@ func c04Script(r *verifh.Rng, flush bool) []string {
 				acts = append(acts, "w:zz")
 			}
 		default:
-			acts = append(acts, fmt.Sprintf("p:%d", r.Range(1, 9)))
+			acts = append(acts, fmt.Sprintf("p:%d", r.Pick(1, 2, 3, 4, 5, 6, 7, 8, 9, 999999)))
 		}
 	}
 	return acts
+}
+
+// c04FlushLocked probes whether timeoutWriter.Flush is serialised by tw.mu.
+func c04FlushLocked() bool {
+	tw := &timeoutWriter{w: httptest.NewRecorder(), h: make(http.Header), code: http.StatusOK}
+	tw.mu.Lock()
+	ch := make(chan struct{})
+	go func() {
+		tw.Flush()
+		close(ch)
+	}()
+	select {
+	case <-ch:
+		tw.mu.Unlock()
+		return false
+	case <-time.After(30 * time.Millisecond):
+		tw.mu.Unlock()
+		<-ch
+		return true
+	}
 }
 
 func c04Gen(r *verifh.Rng) []verifh.Section {
@@ -446,7 +569,7 @@ func c04Gen(r *verifh.Rng) []verifh.Section {
 	nsec := verifh.Scale(12, 120)
 	for i := 0; i < nsec; i++ {
 		var ops []string
-		flushSec := i%4 == 3
+		flushSec := i%4 != 1 // Flush is a handler behaviour like any other; every fourth section is Flush-free
 		for j := 0; j < 30; j++ {
 			acts := c04Script(r, flushSec)
 			kind := r.PickS("none", "deadline", "deadline", "cancel", "cancel", "deadline", "cancel", "timer")
@@ -473,12 +596,14 @@ func c04Gen(r *verifh.Rng) []verifh.Section {
 		}
 		secs = append(secs, verifh.Section{Cfg: "wrapper=rest mode=" + mode, Ops: ops})
 	}
-	// free-running handler against a concurrent expiry
+	// free-running handler against a concurrent expiry.  A Flush races the timeout branch only if Flush takes tw.mu
+	// (the pinned Flush writes to the real writer without any lock: racing it is a data race on the recorder).
 	nrace := verifh.Scale(4, 40)
+	flushLocked := c04FlushLocked()
 	for i := 0; i < nrace; i++ {
 		var ops []string
 		for j := 0; j < 40; j++ {
-			acts := c04Script(r, false)
+			acts := c04Script(r, flushLocked && i%2 == 0)
 			ops = append(ops, fmt.Sprintf("race %s %d %s", r.PickS("deadline", "cancel"), r.Pick(0, 0, 1, 2, 3, 5, 8, 13), strings.Join(acts, " ")))
 		}
 		secs = append(secs, verifh.Section{Cfg: "wrapper=rest mode=race", Ops: ops})
@@ -502,6 +627,16 @@ func c04Gen(r *verifh.Rng) []verifh.Section {
 		}
 	}
 	secs = append(secs, verifh.Section{Cfg: "wrapper=rest mode=deadline", Ops: ops})
+	// Hijack before / after the timeout, on a real writer that can / cannot be hijacked
+	ops = nil
+	for _, sup := range []string{"sup", "nosup"} {
+		for _, kind := range []string{"deadline", "cancel"} {
+			for _, when := range []string{"before", "after"} {
+				ops = append(ops, fmt.Sprintf("hij %s %s %s", sup, kind, when))
+			}
+		}
+	}
+	secs = append(secs, verifh.Section{Cfg: "wrapper=rest mode=hijack", Ops: ops})
 	return secs
 }
 
@@ -516,6 +651,8 @@ func TestVerifC04Rest(t *testing.T) {
 				return c04Race(op)
 			case "dl":
 				return c04Deadline(op)
+			case "hij":
+				return c04Hijack(op)
 			}
 			return "bad-op"
 		}
